@@ -49,24 +49,24 @@ type propConf struct {
 
 var props = map[string]propConf{
 	"C01": {Engine: "E1+E2", QuickBudget: 15, ThorBudget: 600, Also386: true},
-	"C02": {Engine: "E1+E2", QuickBudget: 15, ThorBudget: 600},
-	"C03": {Engine: "E1", QuickBudget: 12, ThorBudget: 600},
-	"C04": {Engine: "E1+E2", QuickBudget: 12, ThorBudget: 600},
-	"C05": {Engine: "E1+E2", QuickBudget: 12, ThorBudget: 600},
-	"C06": {Engine: "E1+E2", QuickBudget: 12, ThorBudget: 600},
-	"C07": {Engine: "E1", QuickBudget: 12, ThorBudget: 600},
+	"C02": {Engine: "E1+E2", QuickBudget: 15, ThorBudget: 600, Also386: true},
+	"C03": {Engine: "E1", QuickBudget: 12, ThorBudget: 600, Also386: true},
+	"C04": {Engine: "E1+E2", QuickBudget: 12, ThorBudget: 600, Also386: true},
+	"C05": {Engine: "E1+E2", QuickBudget: 12, ThorBudget: 600, Also386: true},
+	"C06": {Engine: "E1+E2", QuickBudget: 12, ThorBudget: 600, Also386: true},
+	"C07": {Engine: "E1", QuickBudget: 12, ThorBudget: 600, Also386: true},
 	"C08": {Engine: "E1", QuickBudget: 12, ThorBudget: 600, Also386: true},
 	"C10": {Engine: "E1+E2", QuickBudget: 15, ThorBudget: 600, Also386: true},
 	"C11": {Engine: "E1", QuickBudget: 12, ThorBudget: 600, Also386: true},
-	"C20": {Engine: "E1", QuickBudget: 12, ThorBudget: 600},
+	"C20": {Engine: "E1", QuickBudget: 12, ThorBudget: 600, Also386: true},
 	"C18": {Engine: "E3", Bubble: true, QuickBudget: 15, ThorBudget: 600},
-	"C17": {Engine: "E4", QuickBudget: 15, ThorBudget: 600},
-	"C16": {Engine: "E1", QuickBudget: 12, ThorBudget: 600},
-	"C14": {Engine: "E1", QuickBudget: 12, ThorBudget: 600},
+	"C17": {Engine: "E4", QuickBudget: 15, ThorBudget: 600, Also386: true},
+	"C16": {Engine: "E1", QuickBudget: 12, ThorBudget: 600, Also386: true},
+	"C14": {Engine: "E1", QuickBudget: 12, ThorBudget: 600, Also386: true},
 	"C15": {Engine: "E2r", Race: true, QuickBudget: 25, ThorBudget: 900, Workers: 8},
-	"C13": {Engine: "E1", QuickBudget: 12, ThorBudget: 600},
-	"C12": {Engine: "E2", QuickBudget: 15, ThorBudget: 600},
-	"C09": {Engine: "E2", QuickBudget: 15, ThorBudget: 600},
+	"C13": {Engine: "E1", QuickBudget: 12, ThorBudget: 600, Also386: true},
+	"C12": {Engine: "E2", QuickBudget: 15, ThorBudget: 600, Also386: true},
+	"C09": {Engine: "E2", QuickBudget: 15, ThorBudget: 600, Also386: true},
 }
 
 type summary struct {
@@ -491,6 +491,21 @@ func pass386(pc propConf, id, tier string, seed uint64, budget float64, replayDi
 	return ok
 }
 
+// real386 adds the note about the 386 pass to the list of real components when the pass ran.
+func real386(agg *summary) []string {
+	const note = "the same code a second time on a worker built for GOARCH=386 (a quarter of the budget, seed + 386000): int and pointers of 32 bits - skipped with a note where such a worker cannot be built or run"
+	out := []string{}
+	for _, r := range agg.Desc.Real {
+		if !strings.HasPrefix(r, "the same code a second time on a worker built for GOARCH=386") {
+			out = append(out, r)
+		}
+	}
+	if agg.Probes["runs_on_a_worker_built_for_GOARCH_386"] > 0 {
+		out = append(out, note)
+	}
+	return out
+}
+
 func firstLine(s string) string {
 	s = strings.TrimSpace(s)
 	if i := strings.IndexByte(s, '\n'); i >= 0 {
@@ -688,7 +703,7 @@ func report(id, tier string, seed uint64, pc propConf, sums []*summary, b *built
 			"faults_fired":           agg.Faults,
 			"probes_hit":             agg.Probes,
 			"boundary_ambiguous":     agg.Ambiguous,
-			"components":             map[string]any{"real": agg.Desc.Real, "stub": agg.Desc.Stub},
+			"components":             map[string]any{"real": real386(agg), "stub": agg.Desc.Stub},
 			"known_findings_seen":    knownSeen,
 			"engine":                 pc.Engine,
 			"instrumented_tree":      b.tree,
